@@ -344,3 +344,12 @@ MUTANTS.setdefault('C01', []).extend([
 MUTANTS.setdefault('C05', []).extend([
     ('pt-lookup-root-dotdot-prefix', P, "name.to_bytes_with_nul().starts_with(PARENT_DIR_CSTR)", "name.to_bytes().starts_with(b\"..\")"),
 ])
+
+# the overlay live view (unit ovl_view; proposed and tried by the sub-agent that built it) and the reservation clauses behind D24
+from vx import ovl_view_mutants_proposed as _OV
+for _k, _v in _OV.MUTANTS.items():
+    MUTANTS.setdefault(_k, []).extend(_v)
+MUTANTS.setdefault('C10', []).extend([
+    ('ovl-delayed-removal-keeps-reservation', _OI, "        if let Some(path) = path_removed {\n            self.path_mapping.remove(&path);\n        }\n\n        let removed = match self.inodes.remove(&inode) {", "        let removed = match self.inodes.remove(&inode) {"),
+    ('ovl-forget-removes-whatever-has-the-name', 'src/overlayfs/mod.rs', "                    if Arc::ptr_eq(&c, &v) {\n                        p.remove_child(v.name.as_str());\n                    }", "                    let _ = c;\n                    p.remove_child(v.name.as_str());"),
+])
